@@ -33,31 +33,46 @@ RULE = ("aut: labelled graphs (all isomorphism classes up to 4 nodes over {C,O}x
         "drops a match; prune = at least 2 raw matches. distinct = distinct case dictionaries")
 EXHAUSTIVE = {"quick": True, "thorough": True}
 EXPLANATION = ("Exhaustive sub-space (both tiers): every labelled graph up to isomorphism on <=4 nodes over node labels {C,O}x{hcount 0,1} and "
-               "edge labels {single,double} (9689 graphs) and on 5 nodes over {C,O}x{single} — exact count, orbits, components, anchor and the "
+               "edge labels {single,double} (9689 graphs) and on 5 nodes over {C,O}x{single} - exact count, orbits, components, anchor and the "
                "WL-1 colours after 0,1,2,10 rounds are compared with the model and with brute force.  Everything else is seeded random / "
-               "corpus sampling.  Theorems: see coq/props/C11.v.")
+               "corpus sampling.  Theorems (coq/props/C11.v, all closed under the global context): C11_aut_count, C11_aut_group, "
+               "C11_orbits_exact, C11_wl_never_splits, C11_wfb_sound, C11_vf2_contract, C11_dedup_sublist, C11_prune_complete, "
+               "C11_prune_same_results.")
 TRUSTED_BASE = [
     "Coq 8.16.1 kernel + vm_compute (no native_compute)",
     "hand-written model coq/model/C11_Model.v tied to synkit/Graph/Matcher/{automorphism,auto_est,dedup_matches}.py and the pruning call of "
     "SynReactor.mappings() by the per-run correspondence",
-    "networkx VF2 isomorphisms_iter is modelled by the verified enumerator lib/Mono.v (induced, G into G); agreement is checked on every "
-    "case (count and orbit sets) and independently against a brute-force Python enumerator in the oracle",
-    "harness encoders harness/props/C11.py (attribute tuples interned injectively to N; dict order shipped as list order)",
-    "C11_prune_sound is stated for any result function that is invariant under rule automorphisms (gluing equivariance is C05_glue_equivariant, "
-    "owned by C05); the end-to-end clause is exercised by the oracle on every prune case",
+    "networkx VF2 isomorphisms_iter is modelled by the verified enumerator lib/Mono.v (induced, G into G).  The code uses only the number of "
+    "enumerated maps and the set of their (node, image) pairs; C11_vf2_contract shows that any duplicate-free listing of exactly the "
+    "label-preserving automorphisms gives the same analysis; that VF2 is such a listing is monitored on every case (count, orbit sets, number "
+    "of rule automorphisms) and independently against a brute-force Python enumerator in the oracle",
+    "harness encoders harness/props/C11.py (attribute tuples interned injectively to N; dict order shipped as list order); the theorems' "
+    "premise wf (distinct node ids, edges between distinct listed nodes, one entry per unordered pair) is computed by the model function wfb "
+    "on every encoded graph and compared with True",
+    "C11_prune_same_results is stated for any result function that depends only on the item set of a match and is invariant under rule "
+    "automorphisms; that gluing is such a function is a named premise (gluing equivariance, property C05) - exercised end-to-end by the oracle "
+    "on every prune case",
 ]
 ASSUMPTIONS = ["node ids are non-negative integers", "every edge carries an 'order'", "graphs are simple and undirected",
                "rule automorphisms are those of rule.rc.raw preserving every node attribute except atom_map and every edge attribute"]
-TESTED_NOT_PROVED = ["end-to-end: set of standardised reactions and of ITS hashes with pruning on == with every raw match glued (oracle, every prune case)",
+TESTED_NOT_PROVED = ["end-to-end: set of standardised reactions and of ITS hashes with pruning on == with every raw match glued (oracle, every prune case; "
+                     "the proved half is: every raw match differs from a kept match by a rule automorphism)",
+                     "whole-molecule templates (reaction-centre graph above the enumerator budget, about 17+ atoms) are outside the model's "
+                     "evaluated domain: for them only the oracle runs (counted under outside_model_domain)",
+                     "that the listed components of a disconnected graph are pairwise disjoint (only coverage of all nodes is proved)",
                      "OrbitAccuracy metrics (orbit.py) are compared with a direct recomputation in the oracle only"]
-LEVEL_TEXT = ("Machine-checked proof (Coq) over an executable model of Automorphism, AutoEst, both match de-duplicators and the pruning step of "
-              "SynReactor.mappings(): the automorphism count is the number of label-preserving automorphisms and the orbits are exactly the classes of "
-              "exchangeable nodes (per component, product of counts); WL-1 colours after any number of rounds are constant on true orbits; both "
-              "de-duplicators return a subsequence of their input; pruning by rule automorphisms keeps a representative of every class of matches, so "
-              "any automorphism-invariant result function has the same image with and without pruning.  The model is tied to the code by a per-run "
-              "correspondence on exhaustive small scopes, random graphs, symmetric families, engine-produced match lists and reactor applications.")
-LEVEL_NOTE = ("Trusted: Coq kernel + vm_compute; the model and encoders; VF2 = verified enumerator (monitored).  Gluing invariance under rule "
-              "automorphisms is a named premise (C05).  PartialMatcher's own host-orbit pruning is outside the property.")
+LEVEL_TEXT = ("Machine-checked proof (Coq, all inputs) over an executable model of Automorphism, AutoEst, both match de-duplicators and the pruning "
+              "step of SynReactor.mappings(): the enumeration is a duplicate-free list of exactly the label-preserving automorphisms, which form a "
+              "group; the reported count is its length (product over components for disconnected graphs, component swaps excluded as the code "
+              "documents); the reported orbits cover the nodes, are pairwise disjoint and two nodes share one IFF a listed automorphism maps one to "
+              "the other (per component for disconnected graphs); WL-1 colours after any number of rounds are preserved by every automorphism, so an "
+              "estimated orbit never splits a true orbit; both de-duplicators and the pruning return a subsequence of their input; every pruned-away "
+              "match differs from a kept match by a rule automorphism, so any result function invariant under rule automorphisms has the same image "
+              "with and without pruning.  The model is tied to the code by a per-run correspondence on exhaustive small scopes, random graphs, "
+              "symmetric families, engine-produced match lists and reactor applications.")
+LEVEL_NOTE = ("Trusted: Coq kernel + vm_compute; the model and encoders; VF2 = a duplicate-free listing of the automorphisms (monitored).  Invariance "
+              "of gluing under rule automorphisms is a named premise (C05), tested end-to-end here.  PartialMatcher's own host-orbit pruning is "
+              "outside the property.")
 
 N_CFG = 8
 WL_ATTRS4 = ["element", "charge", "aromatic", "hcount"]
@@ -253,13 +268,15 @@ def _impl_prune(case):
 
 
 def impl(case):
+    """[observable, True...]: the trailing booleans are the well-formedness of the graphs handed to the model (the
+    premise `wf` of the theorems, computed by the model function wfb on the encoded graph)."""
     k = case["kind"]
     if k == "aut":
-        return _impl_aut(case)
+        return [_impl_aut(case), True]
     if k == "dedup":
-        return _impl_dedup(case)
+        return [_impl_dedup(case), True, True]
     if k == "prune":
-        return _impl_prune(case)
+        return [_impl_prune(case), True]
     raise AssertionError(k)
 
 
@@ -304,11 +321,11 @@ def coq_case(case):
     if k == "aut":
         if not _in_domain(case["g"]):
             return None
-        return "run_aut %s" % _coq_graph(case["g"])
+        return "run_aut_wf %s" % _coq_graph(case["g"])
     if k == "dedup":
         if not (_in_domain(case["p"]) and _in_domain(case["h"])):
             return None
-        return "run_dedup %s %s %s" % (_coq_graph(case["p"]), _coq_graph(case["h"]), _coq_maps(case["ms"]))
+        return "run_dedup_wf %s %s %s" % (_coq_graph(case["p"]), _coq_graph(case["h"]), _coq_maps(case["ms"]))
     if k == "prune":
         worker_init()
         r = _reactor(case, "front")
@@ -327,7 +344,7 @@ def coq_case(case):
                 return None
         ifl, ie = GG.Intern(), GG.Intern()
         g = GG.coq_lgraph(rc, lambda n, a: "(0, 0, %s)" % cN(ifl(_lab_f(a))), lambda u, v, a: "(0, %s)" % cN(ie(_lab_e(a))))
-        return "run_prune %s %s" % (g, _coq_maps(r["raw"]))
+        return "run_prune_wf %s %s" % (g, _coq_maps(r["raw"]))
     raise AssertionError(k)
 
 
@@ -612,6 +629,7 @@ def neighbours(case, rng):
 
 def nontrivial(case, obs):
     k = case["kind"]
+    obs = obs[0]
     if k == "aut":
         return len(case["g"]["nodes"]) >= 2 and (obs[0] > 1 or any(len(o) >= 2 for o in obs[4][1]))
     if k == "dedup":
@@ -634,8 +652,9 @@ def distribution(cases, obss):
                 return "<=%d" % b
         return ">4096"
     for c, o in zip(cases, obss):
-        if not isinstance(o, list) or (o and o[0] == "EXC"):
+        if not isinstance(o, list) or not o or o[0] == "EXC":
             continue
+        o = o[0]
         if c["kind"] == "aut":
             bump(d["aut_nodes"], len(c["g"]["nodes"]))
             bump(d["aut_group_order"], bucket(o[0]))
